@@ -6,6 +6,7 @@ import (
 	"bytes"
 	"errors"
 	"fmt"
+	"io"
 	"strings"
 	"time"
 
@@ -241,7 +242,12 @@ func c08HandlerErrD(x *explore.Ctx, readerIsServer, deflate bool) {
 		nc.Chunk = netsim.ChunkFixed(ch)
 	}
 	c := websocket.VerifNewConn(nc, readerIsServer, 0, 0, nil, deflate)
-	E := &hErr{"handler says no"}
+	// whatever value the handler returns (the library's own sentinel errors included: a handler that
+	// answers with WriteControl returns ErrCloseSent once the application has sent a close).  io.EOF is
+	// left out: inside a message reader it means "end of message", and the library reports a bare EOF
+	// from below as an unexpected-EOF close error on purpose.
+	errs := []error{&hErr{"handler says no"}, websocket.ErrCloseSent, io.ErrUnexpectedEOF, websocket.ErrReadLimit, &websocket.CloseError{Code: 1000, Text: "from handler"}, websocket.ErrBadHandshake}
+	E := errs[x.Pick(len(errs), "handler-error-value")]
 	seen := 0
 	var calls []string
 	h := func(kind string) func(string) error {
